@@ -382,12 +382,29 @@ pub fn run_one(seed: u64, cfg: &SimCfg) -> RunResult {
         count("sim.needs-refresh");
     }
     // one wantlist refresh later
+    let marks: Vec<usize> = sim.nodes.iter().map(|n| n.rec.lock().unwrap().ops.len()).collect();
     sim.advance(30_000);
     quiesce(&mut sim, &mut rng, &mut budget);
     sim.advance(1);
     quiesce(&mut sim, &mut rng, &mut budget);
     for s in stuck_queries(&sim, &queries) {
         violations.push(("C02".into(), s));
+    }
+    // C05: independently of faults every connected peer is sent a full wantlist once per refresh period
+    for a in 0..n {
+        for b in 0..n {
+            if a == b || !connected(&sim, a, b) || !client_knows(&sim, a, b) || protocol_of(&sim.nodes[a].prefix) != protocol_of(&sim.nodes[b].prefix) {
+                continue;
+            }
+            let rb = sim.nodes[b].rec.lock().unwrap();
+            let got_full = rb.ops[marks[b].min(rb.ops.len())..].iter().any(|o| {
+                let f: Vec<&str> = o.split(' ').collect();
+                f.len() == 7 && f[1] == "msg" && f[2] == a.to_string() && f[6].starts_with("w=1/")
+            });
+            if !got_full {
+                violations.push(("C05".into(), format!("a whole refresh period passed but node {b} received no full wantlist from node {a}, which is connected to it and serves it")));
+            }
+        }
     }
     // C14: handler-level protocol, delivery of every handed wantlist, agreement of records
     for i in 0..n {
